@@ -76,7 +76,7 @@ def first_diff(got, want):
                 return 'pixel (%d,%d) is %s, expected %s' % (x, y, p, q)
     return None
 
-def rand_tiles(rnd, w, h, style):
+def rand_tiles(rnd, w, h, style, flash_rows=None):
     rows = []
     for r in range(h):
         row = []
@@ -87,6 +87,8 @@ def rand_tiles(rnd, w, h, style):
                 attr = rnd.choice((0x38, 0x07))
             elif style == 'flash':
                 attr = rnd.choice((0x87, 0xB8, 0x38, 0xC1, 0x80 | rnd.randrange(128)))
+                if flash_rows is not None and r not in flash_rows:
+                    attr &= 0x7F          # flashing cells only in some tile rows (the flash rectangle then starts below the top)
             else:
                 attr = rnd.randrange(256)
             kind = rnd.randrange(6)
@@ -109,11 +111,16 @@ def cases(rnd, n):
         style = styles[k % 4]
         scale = rnd.choice((1, 1, 2, 3, 4))
         mtype = rnd.choice((0, 0, 1, 2))
-        tiles = rand_tiles(rnd, w, h, style)
+        flash_rows = None
+        if style == 'flash' and rnd.random() < 0.6:
+            w, h = rnd.choice(((1, 2), (2, 2), (2, 3), (1, 3), (3, 2)))
+            scale = rnd.choice((2, 3, 4, 1))
+            flash_rows = set(rnd.sample(range(1, h), rnd.randrange(1, h)))
+        tiles = rand_tiles(rnd, w, h, style, flash_rows)
         if mtype == 0 or rnd.random() < 0.3:
             tiles = [[(a, d, None) for a, d, m in row] for row in tiles]
         fw, fh = 8 * w * scale, 8 * h * scale
-        crop = rnd.randrange(4)
+        crop = rnd.randrange(4) if flash_rows is None else rnd.choice((0, 0, 1, 2, 3))
         if crop == 0:
             x = y = 0
             cw, ch = None, None
